@@ -107,11 +107,20 @@ impl Bits {
     /// 6-bit groups -> armored characters; returns (chars, fill) where fill is the
     /// number of padding bits added to reach a multiple of 6
     pub fn to_armor(&self) -> (Vec<u8>, u8) {
+        self.to_armor_pad(0)
+    }
+    /// like `to_armor`, with the padding (fill) bits of the last character set to `pad`:
+    /// a receiver must ignore them whatever the sender left there
+    pub fn to_armor_pad(&self, pad: u8) -> (Vec<u8>, u8) {
         let n = (self.v.len() + 5) / 6;
         let fill = n * 6 - self.v.len();
+        let mut padded = self.clone();
+        for _ in 0..fill {
+            padded.v.push(pad & 1);
+        }
         let mut out = Vec::with_capacity(n);
         for c in 0..n {
-            let v = self.uint(c * 6, 6) as u8;
+            let v = padded.uint(c * 6, 6) as u8;
             out.push(crate::armor::chr(v));
         }
         (out, fill as u8)
